@@ -4,11 +4,21 @@
 #include "verif.h"
 #include "rolling_hash/rolling_hash2.c"
 
-/* the dispatched scan symbol: bound to the portable C scan here (the SSE/AVX2 scans are asmsym's part) */
+/* the dispatched scan symbol: bound to the portable C scan, or (-DSCAN_FILE/-DSCAN_FN) to the C text that asmsym/lift_rh.py
+ * lifted from the freshly assembled rolling_hash2_until_00 / _04 object (registers and flags the ABI leaves undefined are draws) */
+#ifdef SCAN_FILE
+uint64_t lift_stale(void) { return ND_U64(); }
+#include SCAN_FILE
+uint64_t _rolling_hash2_run_until(uint32_t *idx, int max_idx, uint64_t *t1, uint64_t *t2, uint8_t *b1, uint8_t *b2, uint64_t h, uint64_t mask, uint64_t trigger)
+{
+        return SCAN_FN(idx, max_idx, t1, t2, b1, b2, h, mask, trigger);
+}
+#else
 uint64_t _rolling_hash2_run_until(uint32_t *idx, int max_idx, uint64_t *t1, uint64_t *t2, uint8_t *b1, uint8_t *b2, uint64_t h, uint64_t mask, uint64_t trigger)
 {
         return _rolling_hash2_run_until_base(idx, max_idx, t1, t2, b1, b2, h, mask, trigger);
 }
+#endif
 
 static uint64_t rol64(uint64_t x, unsigned r) { r &= 63; return r ? (x << r) | (x >> (64 - r)) : x; }
 
@@ -31,6 +41,9 @@ void harness(void)
         uint32_t max_len = ND_U32();
         VASSUME(max_len <= N);
         uint32_t mask = ND_U32(), trigger = ND_U32();
+#ifdef FIXED_MASK
+        VASSUME(mask == FIXED_MASK);   /* BMI2 scan: pext with a symbolic mask does not finish; decided per listed mask */
+#endif
         VASSUME((trigger & ~mask) == 0);
         stp = verif_obj(sizeof(struct isal_rh_state2));
 #ifdef REPLAY
